@@ -10,10 +10,10 @@ from .engine import EngineWorld, drive_standard, gen_spec
 
 def simulate(tape, cfg: dict[str, Any], check: Callable, *, gen=gen_spec, scenario=drive_standard,
              setup: Callable | None = None, nontrivial: Callable | None = None, check_on_cap: bool = False,
-             want_trace: bool = False) -> dict:
+             want_trace: bool = False, world_cls=None) -> dict:
     import os as _os
     want_trace = want_trace or bool(_os.environ.get("VERIF_WANT_TRACE"))
-    world = EngineWorld(tape, cfg)
+    world = (world_cls or EngineWorld)(tape, cfg)
     harness = None
     spec = None
     outcome = None
